@@ -22,11 +22,16 @@ def run(tier):
     facts = F.load("all")
     entries = S.entry_points(facts)
     defaults(res, facts)
-    sem = c17.semantic_build(res, facts, entries, ("C13.R2", "C13.R4"))
+    sem = c17.semantic_build(res, facts, entries, ("C13.R2", "C13.R4", "C13.R3"))
     if not sem:
         c17.ready(res, facts, "C13.R2", c13=True)
     removers(res, facts, semantic=sem)
-    flag_writers(res, facts)
+    from .. import builder_sem
+    seqs = builder_sem.analyse_cached(facts, entries)
+    if not (sem and all(seqs.get(e.id, (None, None))[0] is not None for e in S.select(entries, "prelude", "producer"))):
+        # who-writes rule on the private flag: only when the call-sequence contract (exp removed exactly when acknowledged, whatever else
+        # was called before or after; C13.R3 above) could not be decided
+        flag_writers(res, facts)
     if not sem:
         c17.order(res, facts, entries, "C13.R4")
     persistence(res, facts, entries)
@@ -40,6 +45,20 @@ def run(tier):
         else:
             res.violate(f.rule, f.where, f.construct, f.msg, file=f.file, line=f.line)
     res.floor("C13.R6", 2)
+    # R7: the defaults live in the generic builder's claim map under "exp" / "iat" / "nbf"; PasetoBuilder guards exactly those keys
+    # (reserved-key check of CustomClaim, duplicate bookkeeping).  That guard means something only if GenericBuilder::set_claim stores a
+    # claim under exactly the key the claim reports - a key transformed on the way in (trimmed, case-folded) lets a claim keyed " exp"
+    # replace the default (C14.R3's storage rule, re-evaluated here)
+    from . import c14
+    r7 = Result("C14", "other")
+    c14.set_claim(r7, facts)
+    for v_ in r7.violations:
+        res.violate("C13.R7", v_.where, v_.construct, v_.msg, file=v_.file, line=v_.line)
+    for d in r7.instances.get("C14.R3", []):
+        res.inst("C13.R7", d)
+    res.obligations += r7.obligations
+    res.discharged += r7.discharged
+    res.floor("C13.R7", 8)
     res.floor("C13.R1", 4)
     res.floor("C13.R2", 4 + 1)
     res.floor("C13.R3", 2)
@@ -53,6 +72,19 @@ def run(tier):
 
 
 def defaults(res, facts):
+    # decided by interpreting default() whole (rules/builder_sem.py: what reaches the generic builder, one clock reading); the provenance
+    # terms below only when that is undecided
+    from .. import builder_sem
+    fs = builder_sem.analyse_cached(facts, S.entry_points(facts)).get("(defaults)", (None, None))[0]
+    if fs is not None:
+        for f in fs:
+            for part in ("one clock reading", "exp = RFC 3339(now + 1h)", "iat = RFC 3339(now)", "nbf = RFC 3339(now)"):
+                res.oblige(f.ok)
+                if f.ok:
+                    res.inst("C13.R1", "PasetoBuilder::default (interpreted whole): " + part)
+            if not f.ok:
+                res.violate("C13.R1", f.where, f.construct, f.msg, file=f.file, line=f.line)
+        return
     bs = S.impl_fns(facts, r"^crate::prelude::paseto_builder::PasetoBuilder<'a, Version, Purpose>$", r"^core::default::Default$", "default")
     if len(bs) != 1:
         res.violate("C13.R1", "PasetoBuilder::default", "anchor missing", "impl Default for PasetoBuilder not found")
